@@ -14,7 +14,7 @@ import (
 func init() { register("C03", runC03) }
 
 func runC03(c *core.Ctx) {
-	unit := c.N(120, 2500)
+	unit := c.N(120, 1500)
 	filter := func(p lib.Parser) bool { return p.HasRem || p.Prefix }
 	parserCases(c, unit, filter, func(pc pcase) { checkC03(c, pc) })
 }
